@@ -698,6 +698,13 @@ def r7_format_delimiters(ctx):
                      '' if ok else 'defaults: %s' % [norm(d) for d in dflt])
 
 
+def r9_shared_int_total(ctx):
+    """the reader yields every segment: the count conversions it runs while iterating (_int on HL01/02, IEA01, GE01, SE01) never raise, whatever the element holds or lacks (C04.R3, shared)"""
+    from . import c04
+    for o in c04.r3_int_total(ctx):
+        yield o
+
+
 RULES = [
     Rule('C01.R1', 'literal open() modes valid on every supported interpreter; reader opens the path for text reading', r1_open_modes, floor=15),
     Rule('C01.R2', 'ISA header offsets = offsets derived from dataele widths; version whitelist = control maps', r2_isa_offsets, floor=9),
@@ -705,6 +712,7 @@ RULES = [
     Rule('C01.R4', 'Segment delimiters come from the header; get_term tuple positions agree', r4_delimiter_provenance, floor=9),
     Rule('C01.R5', 'strip set in front of a token is exactly {CR, LF}; leading blank reported', r5_strip_set, floor=1),
     Rule('C01.R6', 'ISA elements are never split at the component separator', r6_isa_not_subsplit, floor=2),
+    Rule('C01.R9', 'shared with C04.R3: _int is total (no exception ends the iteration early)', r9_shared_int_total, floor=3),
     Rule('C01.R8', 'Segment.format / Composite.format print every position up to the last non-empty one (blank is a value)', r8_format_keeps_values, floor=2),
     Rule('C01.R7', 'format puts each delimiter where the parser looks for it; defaults are the segment own delimiters', r7_format_delimiters, floor=5),
 ]
